@@ -1,9 +1,12 @@
 package props
 
 import (
+	"context"
 	"encoding/json"
 	"fmt"
 	"sort"
+	"sync/atomic"
+	"time"
 
 	bpmn "github.com/olive-io/bpmn/v2"
 
@@ -21,6 +24,7 @@ type c04Case struct {
 	DefPos int    `json:"defpos"` // position of the default flow in the outgoing list, -1 = none
 	Truth  int    `json:"truth"`  // bit i = condition i true
 	Tokens int    `json:"tokens"`
+	Flip   bool   `json:"flip,omitempty"` // the variables are inverted while the token reports its probe
 	Lang   string `json:"lang"`   // expr | xpath
 	Source string `json:"source"` // var | obj
 	Storm  bool   `json:"storm"`
@@ -144,6 +148,16 @@ func c04Cases(tier string, seed uint64) []fw.Case {
 						}
 					}
 				}
+			}
+		}
+	}
+	// the values change between the token's evaluation of the conditions and the gateway's answer
+	for k := 1; k <= 3; k++ {
+		for def := 0; def <= k; def++ {
+			for truth := 0; truth < 1<<k; truth++ {
+				c := c04Case{K: k, DefPos: def, Truth: truth, Tokens: 1, Lang: "expr", Source: "var", Flip: true}
+				c.Name = fmt.Sprintf("flip-k%d-def%d-t%d", k, def, truth)
+				cs = append(cs, fw.MkCase("flip", &c))
 			}
 		}
 	}
@@ -310,9 +324,82 @@ func c04RunRetyped(c *c04Case, env *fw.Env, v *fw.V) {
 	}
 }
 
+// c04RunFlip: the variables the conditions read change (every truth value is inverted) at the moment the token
+// has evaluated the conditions and is about to report to the gateway - as a task answered on another token
+// would do. Whatever the engine makes of that, the token takes exactly one flow: the one for the old values or
+// the one for the new ones (there is a default flow, so both exist); it is neither lost nor duplicated and no
+// error is traced.
+func c04RunFlip(c *c04Case, env *fw.Env, v *fw.V) {
+	g, branches := c04Graph(c)
+	defs, _, err := step.Parse(g)
+	if err != nil {
+		v.Inconclusive("parse", "%v", err)
+		return
+	}
+	cls := "flip-while-probing"
+	vals, flipped := map[string]any{}, map[string]any{}
+	for i := 0; i < c.K; i++ {
+		bit := c.Truth >> i & 1
+		vals[fmt.Sprintf("c%d", i)] = bit
+		flipped[fmt.Sprintf("c%d", i)] = 1 - bit
+	}
+	old := branches[c.expected()]
+	inv := *c
+	inv.Truth = ^c.Truth & (1<<c.K - 1)
+	neu := branches[inv.expected()]
+	perturb.Off()
+	pctx, pcancel := context.WithCancel(context.Background())
+	defer pcancel()
+	var inp atomic.Pointer[drive.Inst]
+	fired := perturb.Trigger("gw.exclusive.report", 1, 200*time.Microsecond, func() {
+		if in := inp.Load(); in != nil {
+			for k, x := range flipped {
+				in.Proc.Locator().SetVariable(k, x)
+			}
+		}
+	})
+	defer perturb.Trigger("", 0, 0, nil)
+	in, err := drive.New(env.Label, defs, drive.Opts{ExtraSubs: 1, Vars: vals, Ctx: pctx})
+	if err != nil {
+		v.Violate("new-process-error", "error", "%v", err)
+		return
+	}
+	defer in.Cancel()
+	inp.Store(in)
+	if err := in.Start(); err != nil {
+		v.Violate("start-error", "error", "%v", err)
+		return
+	}
+	q := in.Quiesce(step.Watchdog)
+	v.Add("qpoints", 1)
+	if !q.Quiescent {
+		v.Inconclusive("watchdog", "no quiescent point: %v", quiesce.Summary(q.Gs))
+		return
+	}
+	if !fired() {
+		v.Inconclusive("trigger", "the probing report was never reached")
+		return
+	}
+	v.Add("flips", 1)
+	got := in.PendingActs()
+	if len(got) != 1 || (got[0] != old && got[0] != neu) {
+		v.Violate("wrong-branch", cls, "k=%d default@%d truth=%b inverted while the token was reporting its probe: pending requests %v, expected [%s] (values at the probe) or [%s] (values afterwards); error traces %d", c.K, c.DefPos, c.Truth, got, old, neu, in.Count("Error", "")+in.Count("ErrorNoFlow", ""))
+		v.Log = in.Tail(30)
+		return
+	}
+	if n := in.Count("Error", "") + in.Count("ErrorNoFlow", ""); n != 0 {
+		v.Violate("spurious-error-trace", cls, "%d error traces although a flow can be taken under the old and under the new values", n)
+		v.Log = in.Tail(30)
+	}
+}
+
 func c04Run(c *c04Case, env *fw.Env, v *fw.V) {
 	if c.Retype > 0 {
 		c04RunRetyped(c, env, v)
+		return
+	}
+	if c.Flip {
+		c04RunFlip(c, env, v)
 		return
 	}
 	g, branches := c04Graph(c)
